@@ -213,8 +213,8 @@ func main() {
 		run(o, k)
 	}
 	r := o.Rng
-	nDirect := o.Scale(2600, 22000, 20000)
-	nColl := o.Scale(900, 8000, 8000)
+	nDirect := o.Scale(2200, 22000, 20000)
+	nColl := o.Scale(800, 8000, 8000)
 	for i := 0; i < nDirect; i++ {
 		g := &gen{r: r}
 		doc := g.document()
